@@ -165,3 +165,17 @@ fn vec_worklist_shims_match_std() {
         assert_eq!(iter_collect_vec(a.iter().copied()), a.iter().copied().collect::<Vec<_>>());
     }
 }
+
+#[test]
+fn clone_from_shims_match_std() {
+    let vs: Vec<Vec<i32>> = vec![vec![], vec![1], vec![1, 2, 3], vec![7, 8]];
+    for a in &vs { for b in &vs {
+        let (mut x, mut y) = (a.clone(), a.clone());
+        vec_clone_from(&mut x, b); y.clone_from(b); assert_eq!(x, y);
+        let (mut p, mut q) = (a.clone(), a.clone());
+        default_clone_from(&mut p, b); q.clone_from(b); assert_eq!(p, q);
+    } }
+    let mut s = String::new();
+    write_pieces(&mut s, &["ab", "", "c"], &[' ', '\n', ' '], &[false, true, false]).unwrap();
+    assert_eq!(s, "ab\nc");
+}
